@@ -10,7 +10,7 @@ from hypothesis import strategies as st
 from pbt import docs, jsongen as jg, refserver as ref, serverharness as sh, stdreg
 from pbt.runner import Check, Disc, Outcome
 
-from checks.c01 import doc_classes
+from checks.c01 import BATCH_LIMITS, batch_limit, doc_classes
 
 CODE_CLAUSE_PREFIXES = ('code/', 'app-error', 'lib-error', 'expected-error', 'expected-success', 'nothing-vs-response')
 
@@ -50,8 +50,8 @@ class C03(Check):
             gen = docs.document(reg, kinds=['single'] * 5 + ['batch'] * 5 + ['mangled', 'raw', 'value'],
                                 flavours=['valid'] * 10 + ['unknown-method'] * 2 + ['deviant', 'deviant', 'non-object'])
             return st.builds(
-                lambda text, beh, mbs: {'dispatcher': kind, 'max_batch_size': mbs, 'behaviours': beh, 'text': text},
-                gen, stdreg.behaviours(), st.sampled_from([None, None, None, 0, 2, 4]),
+                lambda text, beh, mbs: {'dispatcher': kind, 'max_batch_size': batch_limit(text, mbs), 'behaviours': beh, 'text': text},
+                gen, stdreg.behaviours(), st.sampled_from(BATCH_LIMITS),
             )
         return st.one_of(for_kind('sync'), for_kind('async'))
 
